@@ -8,7 +8,10 @@
   Fixed configuration (the one the harness passes, Antrea's): correlate fields
     [sourcePodName, sourcePodNamespace, sourceNodeName, destinationPodName, destinationPodNamespace,
      destinationNodeName, destinationClusterIPv4, destinationServicePort,
-     ingressNetworkPolicyRuleAction, egressNetworkPolicyRuleAction, ingressNetworkPolicyRulePriority];
+     ingressNetworkPolicyRuleAction, egressNetworkPolicyRuleAction, ingressNetworkPolicyRulePriority,
+     destinationClusterIPv6];
+  a record need not carry every correlate field (the two nodes of a flow may export with different
+  templates): a field the record lacks is `CorrV.absent`;
   stats elements [packetTotalCount, packetDeltaCount, octetTotalCount, octetDeltaCount] and their
   reverse twins; non-stats elements [flowEndSeconds, flowEndReason, tcpState] (httpVals, a JSON
   merge, is left out of the configuration and of the model).
@@ -23,22 +26,29 @@ namespace Ipfix.Agg
 def u64 : Nat := 18446744073709551616
 def u32 : Nat := 4294967296
 
-/-- a correlate-field value -/
+/-- a correlate-field value; `absent` = the record has no such element (GetInfoElementWithValue
+    reports `exist = false`) -/
 inductive CorrV where
   | str (b : Bytes)
   | num (n : Nat)
   | ip4 (b : Bytes)
   | ip6 (b : Bytes)
+  | absent
   deriving DecidableEq, Repr, Inhabited
+
+def CorrV.isAbsent : CorrV → Bool
+  | .absent => true
+  | _ => false
 
 def zero16 : Bytes := List.replicate 16 0
 
-/-- "empty" in the sense of correlateRecords: "", 0, 0.0.0.0, :: -/
+/-- "empty" in the sense of correlateRecords: "", 0, 0.0.0.0, :: - and a field the record lacks -/
 def CorrV.isEmpty : CorrV → Bool
   | .str b => b.isEmpty
   | .num n => n == 0
   | .ip4 b => b == [0, 0, 0, 0]
   | .ip6 b => b == zero16
+  | .absent => true
 
 /-- positions in the correlate-field vector -/
 def iSrcPod : Nat := 0
@@ -46,6 +56,10 @@ def iDstPod : Nat := 3
 def iIngress : Nat := 8
 def iEgress : Nat := 9
 
+/-- the string / number the code reads of field `i`; an absent field reads as "" / 0: isRecordFromSrc /
+    isRecordFromDst treat an absent pod name like an empty one (an absent sourcePodName: not from
+    the source node; an absent destinationPodName: counts as empty), isCorrelationRequired does not
+    consult an absent rule action (like action 0) -/
 def corrStr (c : List CorrV) (i : Nat) : Bytes := match c[i]? with | some (.str b) => b | _ => []
 def corrNum (c : List CorrV) (i : Nat) : Nat := match c[i]? with | some (.num n) => n | _ => 0
 
@@ -98,9 +112,15 @@ def corrRequired (flowType : Nat) (c : List CorrV) : Bool :=
   !(corrNum c iEgress == Generated.cNetworkPolicyRuleActionDrop || corrNum c iEgress == Generated.cNetworkPolicyRuleActionReject) &&
   !(corrNum c iIngress == Generated.cNetworkPolicyRuleActionReject)
 
-/-- correlateRecords: every non-empty incoming correlate field overwrites the existing one -/
+/-- correlateRecords on one field: a field the incoming record lacks is skipped; a field the stored
+    record lacks is taken over from the incoming record (the element is appended, whatever its
+    value); otherwise a non-empty incoming value overwrites the stored one -/
+def mergeV (i e : CorrV) : CorrV :=
+  if i = .absent then e else if e = .absent then i else if i.isEmpty then e else i
+
+/-- correlateRecords -/
 def correlate (incoming existing : List CorrV) : List CorrV :=
-  List.zipWith (fun i e => if i.isEmpty then e else i) incoming existing
+  List.zipWith mergeV incoming existing
 
 def zeros (n : Nat) : List Nat := List.replicate n 0
 
